@@ -386,15 +386,18 @@ func (i *Int) UnmarshalFrom(r io.Reader) (int, error) {
 // Panics if max != 0 and the Int cannot be represented in max bytes.
 func (i *Int) BigEndian(minBytes, maxBytes int) []byte {
 	act := i.MarshalSize()
-	pad, ofs := act, 0
+	pad := act
 	if pad < minBytes {
-		pad, ofs = minBytes, minBytes-act
+		pad = minBytes
 	}
 	if maxBytes != 0 && pad > maxBytes {
 		panic("Int not representable in max bytes")
 	}
 	buf := make([]byte, pad)
-	copy(buf[ofs:], i.V.Bytes(nil))
+	// big-endian: the value is right-aligned. V.Bytes is the minimal encoding,
+	// which is shorter than MarshalSize for small values.
+	b := i.V.Bytes(nil)
+	copy(buf[pad-len(b):], b)
 	return buf
 }
 
